@@ -366,7 +366,7 @@ func verifDoOp(h *verifHub, op VerifOp, idx int, times map[int]int64, tokens map
 		}
 		oo.Pages = [][]VerifEnt{}
 		from := ""
-		for p := 0; p < 10000; p++ {
+		for p := 0; p < 300; p++ {
 			lim := 0
 			if len(op.Limits) > 0 {
 				if p < len(op.Limits) {
@@ -438,7 +438,7 @@ func verifDoOp(h *verifHub, op VerifOp, idx int, times map[int]int64, tokens map
 				return
 			}
 		}
-		for p := 0; p < 10000; p++ {
+		for p := 0; p < 300; p++ {
 			lim := 0
 			if len(op.Limits) > 0 {
 				if p < len(op.Limits) {
